@@ -145,7 +145,7 @@ def parse_custom(r, tier, frac=0.3):
 
 
 def parse_sdes(r, tier):
-    return (streams.typed_stream("sdes", r, tier) + streams.sdes_short_bodies(r, tier)
+    return (streams.sdes_many_chunks(r) + streams.sdes_priv_utf8(r) + streams.typed_stream("sdes", r, tier) + streams.sdes_short_bodies(r, tier)
             + streams.sdes_wf_variants(r, 600 if tier == "quick" else 6000))
 
 
@@ -162,7 +162,7 @@ def parse_compound(r, tier):
     compares each yielded item with the generic parser run on the tile alone)"""
     import oracles
     out = []
-    for q, m in streams.compound_stream(r, tier):
+    for q, m in [x for x in streams.length_patterns(r) if x[1]["kind"] == "compound"] + streams.compound_stream(r, tier):
         ts = oracles.ref_tiling(m["bytes"])
         idx = len(out)
         out.append((q, m))
@@ -174,8 +174,17 @@ def parse_compound(r, tier):
     return out
 
 
+def report_ext(r, tier):
+    out = []
+    for q, k in streams.report_extensions(r, 60 if tier == "quick" else 600):
+        out.append(streams.P(k, q)); out.append(streams.P("packet", q))
+        n = r.choice([4, 8, 252, 4 * r.randint(1, 63)])
+        out.append((f"(pad {k} {gen.B(q)} {n})", {"op": "pad", "kind": k, "bytes": q, "n": n}))
+    return out
+
+
 def parse_all(r, tier, big=True):
-    return (parse_typed(r, tier) + parse_custom(r, tier) + streams.sdes_short_bodies(r, tier)
+    return (streams.length_patterns(r) + streams.sdes_many_chunks(r) + streams.sdes_priv_utf8(r) + report_ext(r, tier) + parse_typed(r, tier) + parse_custom(r, tier) + streams.sdes_short_bodies(r, tier)
             + streams.sdes_wf_variants(r, 300 if tier == "quick" else 6000) + parse_compound(r, tier)
             + parse_fci(r, tier) + streams.rb_stream(r, tier) + (streams.big_inputs(r) if big else []))
 
@@ -285,21 +294,21 @@ def streams_for(pid, r, tier):
     if pid in ("C06", "C07", "C16", "C17"):
         return build_stream(r, tier, big=(pid == "C16" or tier == "thorough"))
     if pid == "C08":
-        return parse_typed(r, tier) + parse_custom(r, tier, 0.15) + pad_stream(r, "quick") + big_light(r)
+        return streams.length_patterns(r) + report_ext(r, tier) + parse_typed(r, tier) + parse_custom(r, tier, 0.15) + pad_stream(r, "quick") + big_light(r)
     if pid == "C09":
-        return (parse_typed(r, tier, ["sr", "rr", "app", "bye", "tfb", "pfb", "unknown", "packet"])
+        return (report_ext(r, tier) + parse_typed(r, tier, ["sr", "rr", "app", "bye", "tfb", "pfb", "unknown", "packet"])
                 + streams.rb_stream(r, tier))
     if pid == "C10":
         return parse_sdes(r, tier) + pad_stream(r, "quick", ["sdes"])
     if pid == "C11":
         return parse_compound(r, tier)
     if pid == "C12":
-        out = streams.typed_stream("packet", r, tier)
+        out = [x for x in streams.length_patterns(r) if x[1]["kind"] == "packet"] + streams.typed_stream("packet", r, tier)
         for k in streams.TYPED + ["unknown"]:
             out += [streams.P("packet", m["bytes"]) for _, m in streams.structured(k, r, 150 if tier == "quick" else 1500)]
         return out
     if pid == "C13":
-        return pad_stream(r, tier) + pad_big(r)
+        return [x for x in report_ext(r, tier) if x[1]["op"] == "pad"] + pad_stream(r, tier) + pad_big(r)
     if pid == "C14":
         out = []
         for q, m in build_stream(r, tier, ("compound",), big=True):
